@@ -45,7 +45,7 @@ pub enum Fault {
     Cut(u16),
     /// cut at a structural offset (index fraction) + delta
     CutStruct(u16, i8),
-    IoErr { at: u16, structural: bool, kind: Kind, then: Then },
+    IoErr { at: u16, structural: bool, kind: Kind, then: Then, #[serde(default)] delta: i8 },
     /// corrupt one chunk-framing byte (index fraction over the corruptible positions)
     Corrupt(u16, u8),
 }
@@ -98,7 +98,7 @@ fn fault_strategy() -> BoxedStrategy<Fault> {
         3 => Just(Fault::AllCuts),
         2 => any::<u16>().prop_map(Fault::Cut),
         3 => (any::<u16>(), -2i8..=2).prop_map(|(i, d)| Fault::CutStruct(i, d)),
-        5 => (any::<u16>(), any::<bool>(), kind, then).prop_map(|(at, structural, kind, then)| Fault::IoErr { at, structural, kind, then }),
+        5 => (any::<u16>(), any::<bool>(), kind, then, -2i8..=3).prop_map(|(at, structural, kind, then, delta)| Fault::IoErr { at, structural, kind, then, delta }),
         3 => (any::<u16>(), any::<u8>()).prop_map(|(a, b)| Fault::Corrupt(a, b)),
     ]
     .boxed()
@@ -449,9 +449,9 @@ or >=1 read issued after the first error; distinct by hash of the serialised cas
                 ev.push(Ev::Eof);
                 run_sub(&sub(Mode::Cut(k)), ev, &case.reads, &case.rereads, ctx)
             }
-            Fault::IoErr { at, structural, kind, then } => {
+            Fault::IoErr { at, structural, kind, then, delta } => {
                 let k = if *structural {
-                    built.structural[frac(*at, built.structural.len())].min(wire.len())
+                    ((built.structural[frac(*at, built.structural.len())] as i64 + *delta as i64).max(0) as usize).min(wire.len())
                 } else {
                     frac(*at, wire.len() + 1)
                 };
